@@ -4646,11 +4646,13 @@ class Generator:
         sqls: list[str] = []
         stack: list[None | str | exp.Expr] = [expression]
         binary_type = type(expression)
+        negate = expression.args.get("negate")
 
         while stack:
             node = stack.pop()
 
-            if type(node) is binary_type:
+            # A nested operand with a different `negate` flag (a LIKE b NOT LIKE c) needs its own operator text
+            if type(node) is binary_type and node.args.get("negate") == negate:
                 op_func = node.args.get("operator")
                 if op_func:
                     op = f"OPERATOR({self.sql(op_func)})"
